@@ -90,6 +90,12 @@ def entry_points(w):
                                                                              adaptive=False)
     E["numerical_inverse(far,quiet=False)"] = lambda: w.numerical_inverse(far_ra, far_dec, maxiter=5, quiet=False)
     E["numerical_inverse(scalar)"] = lambda: w.numerical_inverse(float(ra[0]), float(dec[0]))
+    # scalar world points for which the approximate inverse gives no finite starting value (antipode of the pointing, NaN): the call
+    # returns NaN through an early exit
+    E["numerical_inverse(scalar,antipode)"] = lambda: w.numerical_inverse(210.0, -40.0)
+    E["numerical_inverse(scalar,nan)"] = lambda: w.numerical_inverse(float("nan"), 10.0)
+    E["invert(scalar,antipode)"] = lambda: w.invert(210.0, -40.0)
+    E["in_image(scalar,antipode)"] = lambda: w.in_image(210.0, -40.0)
     E["numerical_inverse(bad-args)"] = lambda: w.numerical_inverse(ra)
     E["to_fits_sip"] = lambda: w.to_fits_sip(degree=2, npoints=8)
     E["to_fits_sip(no-degree)"] = lambda: w.to_fits_sip(max_pix_error=1e-3, npoints=6)
